@@ -246,25 +246,31 @@ fn map_diagnostic(
 ) -> CodeSpanDiagnostic<usize> {
     let description = diagnostic.description();
 
-    // Set the primary labels
-    let mut labels = vec![map_label(
-        &diagnostic.primary,
-        LabelStyle::Primary,
-        file_to_id,
-    )];
-
-    // Add any secondary labels
-    labels.extend(
+    // A label can only point into a file whose text we have. A label for any other
+    // file (a path that could not be read, or no file at all) becomes a note so that
+    // the diagnostic is still printed.
+    let all_labels = std::iter::once((&diagnostic.primary, LabelStyle::Primary)).chain(
         diagnostic
             .secondary
             .iter()
-            .map(|lbl| map_label(lbl, LabelStyle::Secondary, file_to_id)),
+            .map(|lbl| (lbl, LabelStyle::Secondary)),
     );
+
+    let mut labels = vec![];
+    let mut notes = vec![];
+    for (label, style) in all_labels {
+        if file_to_id.contains_key(&label.file_id) {
+            labels.push(map_label(label, style, file_to_id));
+        } else {
+            notes.push(format!("{} {}", label.file_id, label.message));
+        }
+    }
 
     CodeSpanDiagnostic::new(Severity::Error)
         .with_code(diagnostic.code.clone())
         .with_message(description)
         .with_labels(labels)
+        .with_notes(notes)
 }
 
 fn map_label(
